@@ -27,7 +27,7 @@ Proof. unfold getd. intros ->. reflexivity. Qed.
 Lemma amem_some {V} k (m : list (Z * V)) : amem k m = true -> exists x, aget k m = Some x.
 Proof. unfold amem. destruct (aget k m); [eauto|discriminate]. Qed.
 
-Theorem R_DevInv nw P : stable nw P -> forall w w', R nw w w' -> DevInv P w -> DevInv P w'.
+Theorem RD_DevInv nw P : stable nw P -> forall w w', RD nw w w' -> DevInv P w -> DevInv P w'.
 Proof.
   intros [SP SE] w w' HR. induction HR as [|w1 w2 w3 S _ IH]; intro HI; [exact HI|]. apply IH. clear IH.
   destruct S as [w0 d0 g f Pr G|w0 w0' E _|w0 pid f Hid].
@@ -42,6 +42,9 @@ Proof.
       destruct (d =? k); [injection Hx as <-; eauto|auto]. }
     destruct G as [y [Hy ->]]. apply SE; [exact Hid|apply (HI d y Hy)].
 Qed.
+
+Theorem R_DevInv nw P : stable nw P -> forall w w', R nw w w' -> DevInv P w -> DevInv P w'.
+Proof. intros S w w' HR. apply (RD_DevInv nw P S w w'), R_RD, HR. Qed.
 
 (** the invariant after any event action *)
 Corollary exec_DevInv nw P fuel uops a w :
@@ -210,12 +213,12 @@ Section Rel.
   Hypothesis Q_prim : forall g f, dprim nw g f -> forall x, g x -> Inv x -> Q x (f x).
   Hypothesis Q_parts : forall pid f, (forall p, p_id (f p) = p_id p) -> forall x, Inv x -> Q x (upd_part_in_dev pid f x).
 
-  Theorem R_rel w w' : R nw w w' -> DevInv Inv w ->
+  Theorem RD_rel w w' : RD nw w w' -> DevInv Inv w ->
     forall d x, aget d (f_devs w) = Some x -> exists x', aget d (f_devs w') = Some x' /\ Q x x'.
   Proof.
     intro HR. induction HR as [|w1 w2 w3 S HR IH]; intros HI d x Hx; [exists x; auto|].
     assert (I2 : DevInv Inv w2).
-    { eapply R_DevInv; [exact Inv_stable| |exact HI]. econstructor; [exact S|constructor]. }
+    { eapply RD_DevInv; [exact Inv_stable| |exact HI]. econstructor; [exact S|constructor]. }
     assert (G : exists x2, aget d (f_devs w2) = Some x2 /\ Q x x2).
     { destruct S as [w0 d0 g f Pr G|w0 w0' E _|w0 pid f Hid].
       - unfold updd, setd. cbn. rewrite aget_arepl. destruct (Z.eqb_spec d d0) as [->|N]; cbn.
@@ -229,6 +232,10 @@ Section Rel.
         + apply Q_parts; [exact Hid|apply (HI d x Hx)]. }
     destruct G as [x2 [H2 Q2]]. destruct (IH I2 d x2 H2) as [x' [H' Q']]. exists x'. split; [exact H'|eapply Q_trans; eauto].
   Qed.
+
+  Theorem R_rel w w' : R nw w w' -> DevInv Inv w ->
+    forall d x, aget d (f_devs w) = Some x -> exists x', aget d (f_devs w') = Some x' /\ Q x x'.
+  Proof. intro HR. apply RD_rel, R_RD, HR. Qed.
 End Rel.
 
 (** * C05: parts leave a buffer in arrival order and never before their minimum delay *)
